@@ -29,15 +29,20 @@ class SpyControl:
         self.open_files = {}        # id(file) -> path
         self.opened = 0
         self.armed = True
+        self.instances = []         # spy PathIO instances in creation order (one per connection)
+        self.only_instance = None   # faults / counting restricted to this instance index
 
     def leaked(self):
         """paths of handles aioftp received and that are not closed (a real file
         object closed by a pool job whose awaiter was cancelled counts as closed)"""
         return sorted(p for p, f in self.open_files.values() if not getattr(f, "closed", False))
 
-    async def before(self, op, args):
+    async def before(self, op, args, inst=None):
         if not self.armed:
             return
+        if self.only_instance is not None:
+            if inst is None or inst not in self.instances or self.instances.index(inst) != self.only_instance:
+                return
         self.count += 1
         k = self.count
         p = None
@@ -70,55 +75,61 @@ def make_spy(base, ctl):
     class Spy(base):
         _ctl = ctl
 
+        def __init__(self, *a, **kw):
+            super().__init__(*a, **kw)
+            if kw.get("connection") is not None:
+                ctl.instances.append(self)
+
         @ue
         async def exists(self, path):
-            await ctl.before("exists", (path,))
+            await ctl.before("exists", (path,), self)
             r = await super().exists(path)
             await _after(ctl, "exists")
             return r
 
         @ue
         async def is_dir(self, path):
-            await ctl.before("is_dir", (path,))
+            await ctl.before("is_dir", (path,), self)
             r = await super().is_dir(path)
             await _after(ctl, "is_dir")
             return r
 
         @ue
         async def is_file(self, path):
-            await ctl.before("is_file", (path,))
+            await ctl.before("is_file", (path,), self)
             r = await super().is_file(path)
             await _after(ctl, "is_file")
             return r
 
         @ue
         async def mkdir(self, path, **kw):
-            await ctl.before("mkdir", (path,))
+            await ctl.before("mkdir", (path,), self)
             r = await super().mkdir(path, **kw)
             await _after(ctl, "mkdir")
             return r
 
         @ue
         async def rmdir(self, path):
-            await ctl.before("rmdir", (path,))
+            await ctl.before("rmdir", (path,), self)
             r = await super().rmdir(path)
             await _after(ctl, "rmdir")
             return r
 
         @ue
         async def unlink(self, path):
-            await ctl.before("unlink", (path,))
+            await ctl.before("unlink", (path,), self)
             r = await super().unlink(path)
             await _after(ctl, "unlink")
             return r
 
         def list(self, path):
             inner = super().list(path)
+            outer = self
 
             class L(AbstractAsyncLister):
                 @ue
                 async def __anext__(s):
-                    await ctl.before("list", (path,))
+                    await ctl.before("list", (path,), outer)
                     r = await inner.__anext__()
                     await _after(ctl, "list")
                     return r
@@ -127,14 +138,14 @@ def make_spy(base, ctl):
 
         @ue
         async def stat(self, path):
-            await ctl.before("stat", (path,))
+            await ctl.before("stat", (path,), self)
             r = await super().stat(path)
             await _after(ctl, "stat")
             return r
 
         @ue
         async def _open(self, path, *a, **kw):
-            await ctl.before("_open", (path,))
+            await ctl.before("_open", (path,), self)
             f = await super()._open(path, *a, **kw)
             await _after(ctl, "_open")
             ctl.opened += 1
@@ -143,21 +154,21 @@ def make_spy(base, ctl):
 
         @ue
         async def seek(self, file, *a, **kw):
-            await ctl.before("seek", ())
+            await ctl.before("seek", (), self)
             r = await super().seek(file, *a, **kw)
             await _after(ctl, "seek")
             return r
 
         @ue
         async def write(self, file, *a, **kw):
-            await ctl.before("write", ())
+            await ctl.before("write", (), self)
             r = await super().write(file, *a, **kw)
             await _after(ctl, "write")
             return r
 
         @ue
         async def read(self, file, *a, **kw):
-            await ctl.before("read", ())
+            await ctl.before("read", (), self)
             r = await super().read(file, *a, **kw)
             await _after(ctl, "read")
             return r
@@ -166,7 +177,12 @@ def make_spy(base, ctl):
         async def close(self, file):
             # a failing close still releases the handle as far as the harness
             # is concerned only if the real close ran
-            await ctl.before("close", ())
+            try:
+                await ctl.before("close", (), self)
+            except BaseException:
+                # an injected close failure says nothing about who leaked the handle
+                ctl.open_files.pop(id(file), None)
+                raise
             r = await super().close(file)
             ctl.open_files.pop(id(file), None)
             await _after(ctl, "close")
@@ -174,7 +190,7 @@ def make_spy(base, ctl):
 
         @ue
         async def rename(self, source, destination):
-            await ctl.before("rename", (source, destination))
+            await ctl.before("rename", (source, destination), self)
             if ctl.armed:
                 ctl.calls[-1] = ("rename", str(source) + " -> " + str(destination))
             r = await super().rename(source, destination)
